@@ -8,21 +8,21 @@ import sys
 
 ADDED = {
     'C01': 'dialects diff-N (KF-05) and git-space (names with blanks, tab-terminated)',
-    'C02': 'one reading of the expected line (first guess + prefix fuzz); header pairs with differing line numbers; context-free hunks with an empty other side',
+    'C02': 'one reading of the expected line (first guess + prefix fuzz); header pairs with differing line numbers; context-free hunks with an empty other side; two-hunk sweep on 9/11-line files with the second hunk decided when its matches lie clearly before or behind the first; hunks with two groups of changes',
     'C05': './name spellings as a per-patch option; hand-written workspaces (links, patches that cannot be loaded behind/before the failing one, non-UTF-8 names)',
     'C06': 'the same hand-written workspaces as workloads; ./name variants; rename onto an empty file / of a missing file behind a failure; .pc/p0.patch unusable',
-    'C08': 'rename onto an empty 0600 file; file named twice with a mode change; runs as uid 65534 (set-id bits); applied-patches without final newline',
-    'C09': 'huge push counts as edges; ./name variants; hand-written graphs (links, #-named patch, empty directory; KF-03, KF-04)',
+    'C08': 'rename onto an empty 0600 file; file named twice with a mode change; runs as uid 65534 (set-id bits); applied-patches without final newline; every series of two file patches with one patch reversed',
+    'C09': 'huge push counts as edges; ./name variants; hand-written graphs (links, #-named patch, empty directory; KF-03, KF-04; rolled-back creations; three explored at default verbosity)',
     'C10': 'special series and C06 workloads incl. the hand-written ones',
     'C11': 'grid body with a second hunk; CLI: lookalike lines, 4000 context lines; exotic tokens (tab-terminated names, /dev/null spellings)',
-    'C12': 'same token additions; the former KF-02 class now has to pass',
-    'C13': 'several failing entries for one file (one section each, in order); non-UTF-8 name',
-    'C14': '34 000 (thorough: 70 000) files with and without --mmap',
+    'C12': 'same token additions; the former KF-02 class now has to pass; what creating, deleting and hunk-less entries do to a menu of files is compared; diff -N dialect, names that look like dates',
+    'C13': 'several failing entries for one file (one section each, in order, also with failing entries for other files in between); non-UTF-8 name',
+    'C14': '34 000 (thorough: 70 000) files with and without --mmap; failing patch with several entries for one file behind an earlier patch on it',
     'C15': 'a stale hard-linked reject next to every file',
-    'C16': 'trailing comments; strip counts that are no numbers; strip and old/new choice corners with decoy files',
-    'C17': 'unreadable / unparseable applied-patches',
-    'C18': 'the message must name applied-patches by its path',
-    'C19': 'symbolic links in the tree that lead out (and ones that stay inside)',
+    'C16': 'trailing comments; strip counts that are no numbers; strip and old/new choice corners with decoy files; the strip count over every name of up to three leading components; -R in the existence matrix',
+    'C17': 'unreadable / unparseable applied-patches; thorough: four names',
+    'C18': 'the message must name applied-patches by its path; failing directory listings; a file size limit; thorough: every series of the base space',
+    'C19': 'symbolic links in the tree that lead out (and ones that stay inside); every name of up to 3 (4) components over {a, x, .., .} at every strip level',
     'C20': 'limits 2^64 and 10^30',
 }
 
